@@ -18,7 +18,7 @@ RESULTS = {
               ("missed", "ArchiveWriter's offset index lives in HashMaps (ids_info): API level is outside the claim")),
     "C02-A": ("C02", "ArchiveFileBlock::from reads the file name with take(len).read_to_end instead of read_exact: a cut inside a name yields a shortened name",
               "truncation inside the name bytes of a FileStart block, layers none/encrypt",
-              ("missed", "ArchiveFileBlock::from is outside the claim (symbolic-size name allocation + UTF-8 validation did not finish)")),
+              ("detected", "C02", ["h_lib_from_name"], "a file start announcing a 3-byte name with only 2 bytes present was accepted with the name \"nn\"")),
     "C02-B": ("C02", "load_in_cache fills the chunk cache before comparing the tag",
               "cut >= 16 bytes into chunk >= 1, authenticated repair, content that parses as blocks",
               ("detected", "C02", ["h_enc_load_auth_refines", "h_enc_load_auth_refines_short"], "bytes of a rejected chunk left in the cache")),
